@@ -8,10 +8,16 @@
 // equal that of the default schedule.
 //
 // Deviations from DESIGN.md C14:
-//   - the map-order half (vmap.Keys at the range sites) is not built; only interleavings
-//     are explored. Unowned map order that reaches the output would show up as an R3
-//     self-test failure (two runs of the same schedule differ), which is reported as a
-//     harness error, not a verdict.
+//   - map order is owned (vmap.Keys) only at the string-keyed range sites of the phases
+//     that both compiles share: ComputeTopologicalOrder (ctx.Modules x2, ctx.DepGraph x2)
+//     and runRuntimeAudit (ctx.Modules); found by a hand list in the rewriter, not go/types.
+//     Back-end sites (qbe.go `range TypeIDs`, the pointer-keyed ranges of borrow.go/cfg.go)
+//     are not owned; none of the generated projects reaches them with >=2 keys, and if one
+//     did, the R3 self-test (same schedule twice) would stop the run as a harness error.
+//     Preemptions and map-order deviations have separate bounds (b, m): quick explores
+//     (0,0), (1,0) and every single deviation on the default schedule ((-1,1): -1 prunes the
+//     free scheduling alternatives too); thorough (2,0), (0,1), (0,2), and (3,0), (1,1) on
+//     the single-import projects. The design's shared budget would be b+m <= bound.
 //   - the IL and the wasm binary come from two compiles per execution that follow the same
 //     schedule (MIR depends on the pointer size, so one pipeline run cannot produce both).
 //   - the real `ferret` binary cross-check with GOMAXPROCS 1/16 is not run; the thorough
@@ -214,7 +220,7 @@ func classOf(sec string) string {
 		return "status"
 	case strings.HasPrefix(sec, "diagnostics"):
 		return "diagnostics"
-	case strings.HasPrefix(sec, "il "):
+	case strings.HasPrefix(sec, "il "), sec == "il-order":
 		return "il"
 	case sec == "wasm":
 		return "wasm"
@@ -283,6 +289,7 @@ type tally struct {
 	exec, points, steps, cpu int64
 	perProj                  map[string]any
 	boundDone                map[string]int
+	mapDone                  map[string]int
 	incomplete               []string
 	reported                 map[string]bool
 }
@@ -327,13 +334,19 @@ func judge(c *vl.Ctx, e *sched.Engine, p *pspec, pr *sched.Project, r *sched.Pro
 		}
 	}
 	t.mu.Lock()
-	t.perProj[p.id] = map[string]any{"distinct_observations": len(ndist) + 1, "executions": r.Executions, "bound": r.Task.Bound, "complete": r.Complete, "root_points": r.RootPoints, "goroutines": r.Goroutines}
+	if r.Task.NoSched {
+		r.Task.Bound = -1
+	}
+	t.perProj[fmt.Sprintf("%s@(%d,%d)", p.id, r.Task.Bound, r.Task.MapBound)] = map[string]any{"distinct_observations": len(ndist) + 1, "executions": r.Executions, "complete": r.Complete, "root_points": r.RootPoints, "root_map_points": r.RootMap, "goroutines": r.Goroutines}
 	if r.Complete {
-		if cur, ok := t.boundDone[p.id]; !ok || r.Task.Bound > cur {
+		if cur, ok := t.boundDone[p.id]; r.Task.MapBound == 0 && (!ok || r.Task.Bound > cur) {
 			t.boundDone[p.id] = r.Task.Bound
 		}
+		if cur, ok := t.mapDone[p.id]; r.Task.MapBound > 0 && (!ok || r.Task.MapBound > cur) {
+			t.mapDone[p.id] = r.Task.MapBound
+		}
 	} else {
-		t.incomplete = append(t.incomplete, fmt.Sprintf("%s@%d", p.id, r.Task.Bound))
+		t.incomplete = append(t.incomplete, fmt.Sprintf("%s@(%d,%d)", p.id, r.Task.Bound, r.Task.MapBound))
 	}
 	t.mu.Unlock()
 	if len(ndist) == 0 {
@@ -366,7 +379,7 @@ func judge(c *vl.Ctx, e *sched.Engine, p *pspec, pr *sched.Project, r *sched.Pro
 		if same != 5 {
 			note = fmt.Sprintf("intermittent %d/5", same)
 		}
-		obs := fmt.Sprintf("project %s: the observation depends on the schedule (%s differ)\nschedule A = [] (default), schedule B = %s (%d preemption(s))\nA vs B:\n%s",
+		obs := fmt.Sprintf("project %s: the observation depends on the schedule (%s differ)\nschedule A = [] (default), schedule B = %s (%d preemption(s) + map-order deviation(s))\nA vs B:\n%s",
 			p.id, w, schedStr(o.Schedule), o.Preempt, firstDiffIn(def, o.Text))
 		if note != "" {
 			obs += "\n" + note
@@ -391,7 +404,7 @@ func Run(c *vl.Ctx) {
 		return
 	}
 	all := projects()
-	e := sched.NewEngine(c, 16, false)
+	e := sched.NewEngine(c, 16, true)
 	defer e.Close()
 	fmt.Print(e.Report)
 	fmt.Printf("C14: instrumented build took %.1fs\n", time.Since(c.Start).Seconds())
@@ -400,7 +413,7 @@ func Run(c *vl.Ctx) {
 	} else {
 		c.SetBudget(time.Since(c.Start) + 20*time.Minute)
 	}
-	t := &tally{perProj: map[string]any{}, boundDone: map[string]int{}, reported: map[string]bool{}}
+	t := &tally{incomplete: []string{}, perProj: map[string]any{}, boundDone: map[string]int{}, mapDone: map[string]int{}, reported: map[string]bool{}}
 	prj := map[string]*sched.Project{}
 	var sel []*pspec
 	for _, p := range all {
@@ -416,24 +429,39 @@ func Run(c *vl.Ctx) {
 		sel = append(sel, p)
 		prj[p.id] = finalProject(p)
 	}
-	runPhase := func(ps []*pspec, bound int) {
+	runPhaseM := func(ps []*pspec, bound, mapBound int) {
 		if len(ps) == 0 {
 			return
 		}
+		t0 := time.Now()
+		x0 := t.exec
+		defer func() {
+			fmt.Printf("C14: phase (preemptions<=%d, map deviations<=%d): %d projects, %d executions, %.1fs\n", bound, mapBound, len(ps), t.exec-x0, time.Since(t0).Seconds())
+		}()
 		var tasks []sched.Task
 		for _, p := range ps {
-			tasks = append(tasks, sched.Task{Proj: prj[p.id], Bound: bound})
+			tasks = append(tasks, sched.Task{Proj: prj[p.id], Bound: max(bound, 0), MapBound: mapBound, NoSched: bound < 0})
 		}
 		res := e.Explore(tasks, c.Deadline)
 		for i, r := range res {
 			judge(c, e, ps[i], prj[ps[i].id], r, t)
 		}
 	}
+	runPhase := func(ps []*pspec, bound int) { runPhaseM(ps, bound, 0) }
 	// phase A0: every project at bound 0 (all free choices at blocking/exit points: cheap,
 	// so that a budget cut never leaves a project unexplored); phase A: bound 1
 	runPhase(sel, 0)
 	if !c.OverBudget() {
 		runPhase(sel, 1)
+	}
+	// phase M: every single map-order deviation - quick: on the default schedule (bound -1
+	// prunes even the free scheduling alternatives); thorough: on every preemption-free one
+	if !c.OverBudget() {
+		if c.Quick() {
+			runPhaseM(sel, -1, 1)
+		} else {
+			runPhaseM(sel, 0, 1)
+		}
 	}
 	// phase B: bound 2 (quick: the smallest projects; thorough: everything, simplest first)
 	var b2 []*pspec
@@ -465,12 +493,18 @@ func Run(c *vl.Ctx) {
 			}
 		}
 		runPhase(b3, 3)
+		if !c.OverBudget() {
+			runPhaseM(b3, 1, 1)
+		}
+		if !c.OverBudget() {
+			runPhaseM(sel, 0, 2)
+		}
 	}
 	c.OverBudget()
 	// thorough: natural runs under the race detector on the un-instrumented tree
 	raceInfo := map[string]any{"run": false}
 	if !c.Quick() {
-		raceInfo = racePass(c, e, sel, prj)
+		raceInfo = racePass(c, e, sel, prj, t)
 	}
 	nb := map[int]int{}
 	for _, p := range sel {
@@ -507,7 +541,8 @@ func Run(c *vl.Ctx) {
 			"incomplete_by_budget":              t.incomplete,
 			"race_pass":                         raceInfo,
 			"rewriter_report":                   strings.Split(strings.TrimSpace(e.Report), "\n"),
-			"map_order_explored":                false,
+			"map_order_explored":                true,
+			"map_deviation_bound_completed":     t.mapDone,
 		},
 	})
 }
@@ -517,7 +552,7 @@ func Run(c *vl.Ctx) {
 
 var raceFrame = regexp.MustCompile(`(?m)^\s+(compiler/[^\s(]+)`)
 
-func racePass(c *vl.Ctx, e *sched.Engine, sel []*pspec, prj map[string]*sched.Project) map[string]any {
+func racePass(c *vl.Ctx, e *sched.Engine, sel []*pspec, prj map[string]*sched.Project, t *tally) map[string]any {
 	info := map[string]any{"run": true}
 	bin, err := sched.BuildFree(c)
 	if err != nil {
@@ -578,13 +613,21 @@ func racePass(c *vl.Ctx, e *sched.Engine, sel []*pspec, prj map[string]*sched.Pr
 			mu.Lock()
 			natural++
 			mu.Unlock()
-			var hs []string
-			for _, s := range rep.Seen {
-				hs = append(hs, s.Hash)
-			}
 			w := whatDiffers(rep.Seen[0].Text, rep.Seen[1].Text)
-			if w != "" {
-				c.Fail(vl.Fail{Case: "C14/natural/" + p.id + "/" + w, Obs: "20 natural (uncontrolled, -race build) compiles of the project gave different observations: " + firstDiffIn(rep.Seen[0].Text, rep.Seen[1].Text),
+			// A project whose nondeterminism the controlled exploration already reported is
+			// only counted here. One that the exploration found deterministic but that
+			// differs between natural runs means nondeterminism the scheduler does not own
+			// (e.g. map order at an unhooked site): that is reported.
+			controlled := false
+			t.mu.Lock()
+			for k := range t.reported {
+				if strings.HasPrefix(k, p.id+"/") && !strings.HasSuffix(k, "/control") {
+					controlled = true
+				}
+			}
+			t.mu.Unlock()
+			if w != "" && !controlled {
+				c.Fail(vl.Fail{Case: "C14/natural/" + p.id + "/" + w, Obs: "20 natural (uncontrolled, -race build) compiles of the project gave different observations although every explored schedule gave the same: " + firstDiffIn(rep.Seen[0].Text, rep.Seen[1].Text),
 					Files: map[string]string{"expected.txt": rep.Seen[0].Text, "observed.txt": rep.Seen[1].Text, "project.json": string(j)}, Note: "natural runs: not reproducible on demand"})
 			}
 		}
